@@ -542,6 +542,15 @@ def run(ctx):
                "not that each permutation's index arithmetic is numerically right")
 
 
+def run_compose(ctx):
+    """C02 / C08 view: the stored mapper is the composition previous-then-new (a user lexicon
+    loaded after several mappings gets ids of the current numbering)."""
+    crate = ctx.facts("A").lib
+    E = Effects(crate)
+    fa, ok_b, err_b, map_calls, stores = mapall(ctx, E, crate)
+    mapcompose(ctx, E, crate, fa, ok_b, stores)
+
+
 def run_user(ctx):
     """C08 view: the user-lexicon installation path only."""
     crate = ctx.facts("A").lib
